@@ -118,7 +118,9 @@ func C18(c *Ctx) {
 			return false, 0
 		})
 		n := c.behindEdges("R18.1", "ProcessTransactions", pt, nonceOK, isInsert, "nonce >= pending nonce", "insertion into the valid set")
-		seen := lookupEdges(pt, func(v ssa.Value) bool { return strings.Contains(v.Type().String(), "map[github.com/meshplus/bitxhub/pkg/order/mempool.txnPointer]") }, false)
+		seen := lookupEdges(pt, func(v ssa.Value) bool {
+			return strings.Contains(v.Type().String(), "map[github.com/meshplus/bitxhub/pkg/order/mempool.txnPointer]")
+		}, false)
 		c.behindEdges("R18.1", "ProcessTransactions", pt, seen, isInsert, "(account, nonce) not seen in this call", "insertion into the valid set")
 		known := lookupEdges(pt, mentionsField("txHashMap"), false)
 		c.behindEdges("R18.1", "ProcessTransactions", pt, known, isInsert, "hash not in txHashMap", "insertion into the valid set")
